@@ -48,8 +48,53 @@ SameDecoded(kind, d, b2, p, cnt) ==
   ELSE LET r == Dec(kind, b2, p) IN
        r.n > 0 /\ (Same(r.v, d) \/ NumEq(r.v, d)) /\ SameDecoded(kind, d, b2, p + r.n, cnt - 1)
 
+(***************************************************************************)
+(* Exhaustive sweep (thorough tier).  A "run" event summarises all float32 *)
+(* bit patterns from lo to hi (aligned blocks of four, one sign and        *)
+(* exponent): each is written in 4 bytes and the decoded bits are the      *)
+(* original bits plus d[j + 1] for patterns congruent to j modulo 4.  The  *)
+(* run satisfies the contract iff                                          *)
+(*  - a 30-bit float (j = 0) survives unchanged: d[1] = 0;                 *)
+(*  - the other residues stay within the 4-ulp band: checked at the first  *)
+(*    and the last pattern of each residue (the band is monotone in the    *)
+(*    magnitude and the run does not cross a sign or exponent boundary);   *)
+(*  - no value inside the run is exactly representable in a short form of  *)
+(*    the kind (else the shortest form was not used): the significands of  *)
+(*    the run contain no multiple of the grid step (NoShortInside).        *)
+(***************************************************************************)
+AddBits(f, d) == LET m == Mag(f) + d IN Bits(Sign(f), m \div 8388608, m % 8388608)
+
+(* is there a multiple of 2^t in [a, b] ? (0 <= a <= b) *)
+HasMultiple(a, b, t) == IF t <= 0 THEN TRUE ELSE IF t > 30 THEN a = 0
+                        ELSE ((a + Pow2(t) - 1) \div Pow2(t)) * Pow2(t) <= b
+NoShortInside(kind, lo, hi) ==
+  LET s == Sign(lo)  e == Exp(lo)
+      a == Sig(lo)   b == Sig(hi) IN
+  CASE kind = "real" ->
+         \* integers in [0, 16384): positive, 127 <= e <= 140, significand a multiple of 2^(150 - e)
+         s = 1 \/ e < 127 \/ e > 140 \/ ~HasMultiple(a, b, 150 - e)
+    [] kind = "coordinate" ->
+         \* multiples of 1/64 in [-128, 128): |v| < 128 (e <= 133), significand a multiple of 2^(144 - e);
+         \* -128 itself is the lone pattern s = 1, e = 134, significand 2^23
+         /\ (e > 133 \/ e = 0 \/ ~HasMultiple(a, b, 144 - e))
+         /\ ~(s = 1 /\ e = 134 /\ a = 8388608)
+    [] OTHER -> TRUE
+
+JudgeRun(e) ==
+  /\ Sign(e.lo) = Sign(e.hi) /\ Exp(e.lo) = Exp(e.hi)
+  /\ e.lo[2] % 4 = 0 /\ e.hi[2] % 4 = 3 /\ Mag(e.hi) - Mag(e.lo) = 4 * e.n - 1
+  /\ e.d[1] = 0
+  /\ \A j \in 0..3 :
+        LET first == AddBits(e.lo, j)   last == AddBits(e.hi, j - 3) IN
+        /\ Mag(first) + e.d[j + 1] >= 0 /\ Mag(last) + e.d[j + 1] >= 0
+        /\ Within4(AddBits(first, e.d[j + 1]), first) /\ Within4(AddBits(last, e.d[j + 1]), last)
+        /\ Is30(AddBits(first, e.d[j + 1]))
+  /\ (Exp(e.lo) < 255 => NoShortInside(e.kind, e.lo, e.hi))
+
 Judge(e) ==
-  CASE e.ev = "enc" /\ e.kind # "any" -> AllEnc(e.kind, e.v, e.b, 1, e.cnt)
+  CASE e.ev = "run" -> JudgeRun(e)
+    [] e.ev = "decrun" -> e.bad = 0
+    [] e.ev = "enc" /\ e.kind # "any" -> AllEnc(e.kind, e.v, e.b, 1, e.cnt)
     [] e.ev = "enc" /\ e.kind = "any" ->
          \* SetNReg: the opcode names the kind; the value survives; no longer than
          \* the shortest exact real or coordinate form
